@@ -225,6 +225,114 @@ def shared_table_rule(R7, mods):
                 R7.ok(inst, nontrivial=(len(R7.nontrivial) < 400))
 
 
+def _cache_sites(tree):
+    """(fn, kind, owner text, key text, miss test, stored value expr, node) for the two memo idioms:
+    attribute memo   if <miss test on X.a>: X.a = value          (X a parameter of fn)
+    table memo       if K not in T: T[K] = value   /   try: return T[K]  except KeyError: .. T[K] = value    (T a module-level name)"""
+    out = []
+    for fn in [n for n in ast.walk(tree) if isinstance(n, ast.FunctionDef)]:
+        params = set(param_names(fn))
+        for n in walk_no_nested(fn):
+            if isinstance(n, ast.If):
+                tt = u(n.test).replace(' ', '')
+                for st in ast.walk(ast.Module(body=n.body, type_ignores=[])):
+                    if not (isinstance(st, ast.Assign) and len(st.targets) == 1):
+                        continue
+                    tg = st.targets[0]
+                    if isinstance(tg, ast.Attribute) and isinstance(tg.value, ast.Name) and tg.value.id in params:
+                        x_, a_ = tg.value.id, tg.attr
+                        miss = ("getattr(%s,'%s',None)isNone" % (x_, a_), '%s.%sisNone' % (x_, a_), "nothasattr(%s,'%s')" % (x_, a_), 'not%s.%s' % (x_, a_),
+                                "'%s'notin%s.__dict__" % (a_, x_), "notgetattr(%s,'%s',None)" % (x_, a_))
+                        if tt in miss:
+                            out.append((fn, 'attribute', x_, x_, n.test, st.value, st))
+                    if isinstance(tg, ast.Subscript) and isinstance(tg.value, ast.Name) and tg.value.id not in params:
+                        t_, k_ = tg.value.id, u(tg.slice).replace(' ', '')
+                        if tt in ('%snotin%s' % (k_, t_), 'not%sin%s' % (k_, t_), 'not(%sin%s)' % (k_, t_), '%s.get(%s)isNone' % (t_, k_)):
+                            out.append((fn, 'table', t_, u(tg.slice), n.test, st.value, st))
+            if isinstance(n, ast.Try) and len(n.body) == 1 and isinstance(n.body[0], ast.Return) and isinstance(n.body[0].value, ast.Subscript) \
+                    and isinstance(n.body[0].value.value, ast.Name) and n.body[0].value.value.id not in params:
+                t_, k_ = n.body[0].value.value.id, u(n.body[0].value.slice).replace(' ', '')
+                follow = []
+                for h in n.handlers:
+                    follow += h.body
+                blk = parent(n)
+                for fld in ('body', 'orelse'):
+                    lst = getattr(blk, fld, None)
+                    if isinstance(lst, list) and n in lst:
+                        follow += lst[lst.index(n) + 1:]
+                for st in ast.walk(ast.Module(body=follow, type_ignores=[])):
+                    if isinstance(st, ast.Assign) and len(st.targets) == 1 and isinstance(st.targets[0], ast.Subscript) and isinstance(st.targets[0].value, ast.Name) \
+                            and st.targets[0].value.id == t_ and u(st.targets[0].slice).replace(' ', '') == k_:
+                        out.append((fn, 'table', t_, u(st.targets[0].slice), n.body[0].value, st.value, st))
+    return out
+
+
+def _param_deps(fn, expr, upto):
+    """parameters of fn that the expression is computed from, through the simple local assignments of fn that precede `upto`"""
+    params = set(param_names(fn))
+    local = {}
+    for n in walk_no_nested(fn):
+        if getattr(n, 'lineno', 0) >= upto.lineno:
+            continue
+        if isinstance(n, ast.Assign) and len(n.targets) == 1 and isinstance(n.targets[0], ast.Name):
+            local.setdefault(n.targets[0].id, []).append(n.value)
+        if isinstance(n, ast.For) and isinstance(n.target, ast.Name):
+            local.setdefault(n.target.id, []).append(n.iter)
+    seen, todo, deps = set(), [expr], set()
+    while todo:
+        e = todo.pop()
+        bound = set()
+        for x in ast.walk(e):
+            if isinstance(x, ast.comprehension):
+                bound.update(y.id for y in ast.walk(x.target) if isinstance(y, ast.Name))
+            if isinstance(x, ast.Lambda):
+                bound.update(a.arg for a in x.args.args)
+        for x in ast.walk(e):
+            if isinstance(x, ast.Name) and isinstance(x.ctx, ast.Load) and x.id not in bound and x.id not in seen:
+                seen.add(x.id)
+                if x.id in params and x.id not in local:
+                    deps.add(x.id)
+                elif x.id in params:
+                    deps.add(x.id)
+                    todo.extend(local[x.id])
+                elif x.id in local:
+                    todo.extend(local[x.id])
+    return deps
+
+
+def cache_key_rule(R, mods):
+    """A memoised value is computed from the parameters of the function; the place it is kept in is selected by the owner object (attribute memo) or the key (table memo).
+    A parameter that feeds the value and is neither the owner, nor part of the key, nor consulted by the miss test makes the second call with another argument return the
+    first call's value (shared as C08.D9)."""
+    example = ast.parse("def ops(l, segs=()):\n    if getattr(l, 'kept', None) is None:\n        l.kept = [f(x, segs) for x in l.arg]\n    return l.kept\n"
+                        "T = {}\ndef tab(a, b):\n    k = a\n    try:\n        return T[k]\n    except KeyError:\n        pass\n    v = g(a, b)\n    T[k] = v\n    return v\n"
+                        "def fine(l, segs=()):\n    if l.kept is None:\n        l.kept = [f(x) for x in l.arg]\n    return l.kept\n")
+    for _n in ast.walk(example):
+        for _c in ast.iter_child_nodes(_n):
+            _c._parent = _n
+    exs = [(fn.name, sorted(_param_deps(fn, val, st) - _param_deps(fn, ast.parse(key, mode='eval').body, st) - _param_deps(fn, test, st)))
+           for fn, kind, owner, key, test, val, st in _cache_sites(example)]
+    if sorted(exs) != [('fine', []), ('ops', ['segs']), ('tab', ['b'])]:
+        raise AnalysisError('cache-key rule: the built-in positive examples are no longer recognised: %r' % (exs,))
+    n = 0
+    for m in mods:
+        for fn, kind, owner, key, test, val, st in _cache_sites(m.tree):
+            n += 1
+            first = param_names(fn)[0] if param_names(fn) else None
+            extra = _param_deps(fn, val, st) - _param_deps(fn, ast.parse(key, mode='eval').body, st) - _param_deps(fn, test, st)
+            if kind == 'table':
+                extra.discard('self' if first == 'self' else None)
+            inst = '%s::%s:%s[%s]' % (m.name, fn.name, owner, key if kind == 'table' else u(st.targets[0]))
+            if extra:
+                R.violation(inst, 'cache-key:%s:%s' % (fn.name, ','.join(sorted(extra))), '%s keeps %s per %s, but the kept value is computed from %s as well: a second call with another %s '
+                            'returns the value of the first' % (fn.name, u(st.targets[0]), key, ', '.join(sorted(extra)), sorted(extra)[0]), where(m, st),
+                            witness='two calls on one object with different arguments')
+            else:
+                R.ok(inst, sample='%s: %s is computed from its %s only' % (fn.name, u(st.targets[0]), 'owner' if kind == 'attribute' else 'key'))
+    if not n:
+        R.ok('no memo idiom', sample='no attribute memo / table memo in the scanned modules (positive examples recognised)')
+
+
 def state_copy_rule(R, mods):
     """For every class with a copy() method that builds a new instance of the class: the attributes that methods other than __init__ assign (`self.x = ..`, `self.x += ..`)
     or change in place (`self.x[k] = v`, `self.x.append(..)`, `self.x.__setitem__(..)`) are the state of an instance; copy() must set each of them on the new object (or hand it
@@ -894,6 +1002,10 @@ def run(ctx, report):
     R15 = report.rule('C12.D15', 'no long-lived table holds a one-shot iterator (map / filter / zip / reversed / iter / a generator expression stored at module or class level and read '
                       'inside a function): the first call consumes it, every later call finds it empty', floor=1)
     oneshot_rule(R15, mods)
+
+    R17 = report.rule('C12.D17', 'a memoised value (attribute memo on a parameter, module-level table memo) is computed only from what selects its slot: the owner object, the key, '
+                      'or what the miss test consults; no other parameter feeds it', floor=1)
+    cache_key_rule(R17, ctx.all_modules())
 
     R16 = report.rule('C12.D16', 'copy() of a state class carries every attribute its methods update: a copied machine state answers like the state it was copied from', floor=2)
     state_copy_rule(R16, [ctx.mod('eval_abs')])
